@@ -568,6 +568,21 @@ def _resolve(call, owner_cls, classes, modfuncs, known):
         if cls is None:
             return None
         h = classes[cls].get(f.attr)
+        if h is None and base in ("self", "cls"):
+            # inherited from a base class of this module, and defined by
+            # that class alone (no override anywhere)
+            definers = [c for c, d in classes.items()
+                        if c != "__bases__" and f.attr in d]
+            seen, todo = set(), list(classes.get("__bases__", {}).get(
+                cls, []))
+            while todo:
+                b = todo.pop()
+                if b in seen:
+                    continue
+                seen.add(b)
+                todo += classes.get("__bases__", {}).get(b, [])
+            if len(definers) == 1 and definers[0] in seen:
+                h = classes[definers[0]][f.attr]
         if h is None or h[0] in known:
             return None
         if "property" in _decorators(h[1]):
@@ -743,6 +758,8 @@ def inline_helpers(tree, modname, ref, rounds=3):
                     if isinstance(m, FUNC):
                         d[m.name] = (f"{modname}.{st.name}.{m.name}", m)
                 classes[st.name] = d
+                classes.setdefault("__bases__", {})[st.name] = [
+                    b.id for b in st.bases if isinstance(b, ast.Name)]
         n = 0
         # properties the reference does not know: `self.p` -> expression
         n += _inline_properties(tree, modname, classes, known)
@@ -1049,6 +1066,8 @@ def _functions_with_owner(tree):
 def _inline_properties(tree, modname, classes, known):
     n = 0
     for cname, members in classes.items():
+        if cname == "__bases__":
+            continue
         props = {}
         for name, (q, f) in members.items():
             if q in known or "property" not in _decorators(f):
@@ -1172,11 +1191,45 @@ def _inline_in_function(func, owner, classes, modfuncs, known, qual=None):
             if rep is None:
                 rep = hoist_inline(st)
             if rep is None:
+                rep = lead_hoist(st)
+            if rep is None:
                 out.append(st)
             else:
                 n += 1
                 out.extend(rep)
         return out
+
+    lead_no = [0]
+
+    def lead_hoist(st):
+        """`yield self.h(a), Else` / `x = (self.h(a), b)`: the helper call
+        is what the statement evaluates first, so it can be given a name of
+        its own in front of the statement (and inlined there)"""
+        if not isinstance(st, (ast.Expr, ast.Assign, ast.Return)) or \
+                getattr(st, "value", None) is None:
+            return None
+        holder, fld, v = st, "value", st.value
+        if isinstance(v, (ast.Yield, ast.Await)) and v.value is not None \
+                and isinstance(st, ast.Expr) and isinstance(v, ast.Yield):
+            holder, fld, v = v, "value", v.value
+        if not (isinstance(v, ast.Tuple) and v.elts):
+            return None
+        c = v.elts[0]
+        r = helper_of(c)
+        if r is None or isinstance(r[0], ast.AsyncFunctionDef) or \
+                _is_generator(r[0]):
+            return None
+        lead_no[0] += 1
+        nm = f"_lead{lead_no[0]}"
+        a = ast.Assign(targets=[ast.Name(nm, ast.Store())], value=c)
+        ast.copy_location(a, st)
+        ast.fix_missing_locations(a)
+        rep = stmt_inline(a)
+        if rep is None:
+            lead_no[0] -= 1
+            return None
+        v.elts[0] = ast.copy_location(ast.Name(nm, ast.Load()), c)
+        return rep + [st]
 
     def hoist_inline(st):
         """`for x in self.h(a):` / `y = f(self.h(a))` where h is a few
